@@ -219,6 +219,8 @@ def oto_op_has_unhashable(op):
         return _unh(op[3])
     if op[0] == "op":
         return any(_unh(a) for a in op[4:])
+    if op[0] == "fromkeys":
+        return _unh(op[1]) or _unh(op[2])
     return False
 
 
@@ -253,7 +255,13 @@ def gen_oto(rng, tier):
         elif r < 0.13 and ninst < 3:
             ops.append(["copy", rng.choice(["copy", "ctor", "copycopy"]), i, s])
             ninst += 1
-        elif r < 0.22 and ninst >= 1:
+        elif r < 0.16 and ninst < 3:
+            keys = [U(rng.choice(toks)) for _ in range(rng.randint(0, 4))]
+            v = U(rng.choice(toks))
+            ops.append(["fromkeys", keys, v, rng.choice(["list", "tuple", "iter", "gen"])])
+            if not (keys and (_unh(keys) or _unh(v))):
+                ninst += 1
+        elif r < 0.24 and ninst >= 1:
             ops.append(["updfrom", rng.random() < 0.4, i, s, rng.randrange(ninst), int(rng.random() < 0.5)])
         else:
             name = rng.choice(["set", "set", "set", "set", "del", "pop", "popd", "popitem", "clear", "setdefault",
@@ -367,7 +375,18 @@ def gen_fd(rng, tier):
         items.pop()
     elif r < 0.28:
         items.append([rng.choice(toks), rng.choice(toks)])
-    return {"kind": "fd", "kvs": kvs, "ctor": _pick_form(rng, FD_FORMS, kvs), "ops": ops,
+    if rng.random() < 0.12:           # FrozenDict.fromkeys: one value for every key
+        v0 = rng.choice(toks)
+        kvs = [[k, v0] for k, _ in kvs]
+        ctor = "fromkeys"
+        d = {}
+        for k, v in kvs:
+            d[k] = v
+        items = [[k, v] for k, v in d.items()]
+        rng.shuffle(items)
+    else:
+        ctor = _pick_form(rng, FD_FORMS, kvs)
+    return {"kind": "fd", "kvs": kvs, "ctor": ctor, "ops": ops,
             "kvs2": items, "ctor2": _pick_form(rng, FD_FORMS, items)}
 
 
@@ -453,6 +472,15 @@ def run_oto(case):
                     a = ()
                 o = OneToOne.unique(*a, **kw) if op[1] else OneToOne(*a, **kw)
                 cleanup()
+                insts.append(o)
+            elif op[0] == "fromkeys":
+                ks = [obj(k) for k in op[1]]
+                arg = {"list": list, "tuple": tuple, "iter": iter, "gen": lambda l: (k for k in l)}[op[3]](ks)
+                if op[2] == NONE_TOK and len(op[1]) % 2:
+                    o = OneToOne.fromkeys(arg)
+                else:
+                    o = OneToOne.fromkeys(arg, obj(op[2]))
+                assert type(o) is OneToOne
                 insts.append(o)
             elif op[0] == "copy":
                 x = insts[op[2]].inv if op[3] else insts[op[2]]
@@ -624,6 +652,10 @@ def _exn_name(e):
 
 def _fd_new(form, pairs):
     from boltons.dictutils import FrozenDict
+    if form == "fromkeys":          # all values are the same token (or there are no pairs)
+        f = FrozenDict.fromkeys(iter([obj(k) for k, _ in pairs]), *([obj(pairs[0][1])] if pairs else []))
+        assert type(f) is FrozenDict
+        return f
     a, kw, cleanup = make_arg(form, pairs)
     if form == "kwargs":
         a = ()
@@ -820,6 +852,8 @@ def c_oto_hop(op):
         return "HNew %s %s" % (cb(op[1]), ckvs(op[3]))
     if op[0] == "copy":
         return "HCopy %s %s" % (cn(op[2]), cb(bool(op[3])))
+    if op[0] == "fromkeys":
+        return "HFromkeys %s %s" % (cl(cn(k) for k in op[1]), cn(op[2]))
     if op[0] == "updfrom":
         return "HUpdFrom %s %s %s %s %s" % (cb(op[1]), cn(op[2]), cb(bool(op[3])), cn(op[4]), cb(bool(op[5])))
     return "HOp %s %s (%s)" % (cn(op[1]), cb(bool(op[2])), c_oto_op(op))
@@ -1036,7 +1070,7 @@ def shrink(case):
                 c["ops"] = c["ops"] + [["hash"]]
             yield c
     for i in range(n):
-        if case["kind"] != "fd" and ops[i][0] in ("new", "copy", "newfrom"):
+        if case["kind"] != "fd" and ops[i][0] in ("new", "copy", "newfrom", "fromkeys"):
             continue
         rest = ops[:i] + ops[i + 1:]
         if case["kind"] == "fd" and not any(o[0] == "hash" for o in rest):
